@@ -33,6 +33,7 @@ var c08Ops = []string{
 	"Scale", "Pow", "Exp", "Log", "Sin", "Cos", "Tan", "Sinh", "Cosh", "Tanh",
 	"Transpose", "Reshape", "UnSqueeze", "Squeeze", "Flatten", "Broadcast", "Slice",
 	"ReshapeSame", "FlattenLast", "BroadcastSame", "SliceWhole", "PatchWhole", "PatchFull",
+	"VarAlongOne", "StdAlongOne", "MaxAlongOne", "SumAlongOne",
 	"SumAlong", "MaxAlong", "MinAlong", "AvgAlong", "VarAlong", "StdAlong", "MeanAlong",
 	"Add", "Sub", "Mul", "Div", "ElMax", "ElMin", "Dot", "MatMul", "Patch", "Concat2", "Concat3",
 	"Eq", "Ne", "Gt", "Ge", "Lt", "Le",
@@ -91,6 +92,12 @@ func c08Apply(op string, xs []T) (T, error) {
 		return x.Broadcast([]int{2, 2, 2})
 	case "Slice":
 		return x.Slice([]tensor.Range{{From: 0, To: 1}})
+	case "VarAlongOne", "StdAlongOne", "MaxAlongOne", "SumAlongOne": // reduction over a dimension of size 1
+		u, err := x.UnSqueeze(2)
+		if err != nil {
+			return nil, err
+		}
+		return applyAlong(op[:len(op)-8], u, 2)
 	case "SumAlong", "MaxAlong", "MinAlong", "AvgAlong", "VarAlong", "StdAlong", "MeanAlong":
 		return applyAlong(op[:len(op)-5], x, 1)
 	case "Patch":
@@ -176,6 +183,9 @@ func H_C08_step() {
 			}
 			if tracked && vrt.Tracked(xs[i]) {
 				vrt.Assert("every tracked operand of a tracked root receives a gradient and is spent", xs[i].Gradient() != nil && vrt.Dirty(xs[i]))
+				if g := xs[i].Gradient(); g != nil {
+					vrt.Assert("gradient tensors are untracked and carry no graph", !vrt.Tracked(g) && vrt.NumEdges(g) == 0 && g.Gradient() == nil)
+				}
 			} else {
 				vrt.Assert("nothing else is touched by the back-propagation", (xs[i].Gradient() != nil) == had[i] && vrt.Dirty(xs[i]) == wasDirty[i])
 			}
